@@ -239,6 +239,14 @@ func RandomProg(rng *rand.Rand) *Prog {
 	g.ags = append([]string{}, g.gs...)
 	p := &Prog{Mods: map[string]Module{}}
 	data := g.body(0, []QN{}, false)
+	if rng.Intn(6) == 0 {
+		// a chain of twenty nested containers (paths of more than twenty steps)
+		deep := leafStmt("bottom")
+		for k := 20; k >= 1; k-- {
+			deep = st("container", fmt.Sprintf("deep%d", k), deep)
+		}
+		data = append(data, deep)
+	}
 	if rng.Intn(3) == 0 { // part of the tree written in a submodule
 		k := 1 + rng.Intn(len(data))
 		sub := Module{Name: "as", Kind: "submodule", Pfx: "a", Belongs: "a", Imports: map[string]string{}, Includes: []string{}, Body: data[k-1:]}
@@ -416,6 +424,14 @@ func gen(body []byte) *core.Verdict {
 			keys := sortedObs(obs)
 			rng.Shuffle(len(keys), func(i, j int) { keys[i], keys[j] = keys[j], keys[i] })
 			if len(keys) > 12 {
+				// (the node with the longest path is always among those looked up)
+				longest := 0
+				for i, k := range keys {
+					if len(obs[k].P) > len(obs[keys[longest]].P) {
+						longest = i
+					}
+				}
+				keys[0], keys[longest] = keys[longest], keys[0]
 				keys = keys[:12]
 			}
 			for _, k := range keys {
